@@ -59,7 +59,7 @@ CLAIMED.update({
  'C14': dict(section='8/C14', technique=ITS_TECH, note=ITS_NOTE,
    text='Theorems c14_*_id (published derivations), c14_preimage_inj / c14_kind_prefix, c14_create, c14_binding_forever_step and c14_binding_forever (write-once binding over every operation, asynchronous step and history, by case analysis over all 25 operations + induction), c14_local_deployer, c14_custom_not_native; prefix hashes distinct for keccak by computation.'),
  'C17': dict(section='8/C17', technique=ITS_TECH, note=ITS_NOTE + ' Known findings F-C17-1..5 (callback of the lookup fails in a later configuration: value stays in the service) are recorded and exhibited by the c17_refuted_* Examples.',
-   text='Theorems c17_metadata_callback and c17_remote_callback (whenever the callback completes the whole attached value is refunded or forwarded to the gas service with one gateway message), c17_sync_forward; the recorded classes are reported as KNOWN-FINDING, any other value left in the service as a violation (custody equation monitor). World level (Proofs/ItsCustody.v): the custody equation of the service for any ledger token - c17_sync_custody (all 19 synchronous endpoints: balance moves by exactly what the pending work created by the transaction holds), c17_sync_nothing_kept, c17_deliver_custody, c17_callback_custody and c17_props_custody (a succeeding callback strands nothing; a failing one strands exactly what the pending work held = the recorded findings).'),
+   text='Theorems c17_metadata_callback and c17_remote_callback (whenever the callback completes the whole attached value is refunded or forwarded to the gas service with one gateway message), c17_sync_forward; the recorded classes are reported as KNOWN-FINDING, any other value left in the service as a violation (custody equation monitor). World level (Proofs/ItsCustody.v): the custody equation of the service for any ledger token - c17_sync_custody (all 19 synchronous endpoints: balance moves by exactly what the pending work created by the transaction holds), c17_sync_nothing_kept, c17_deliver_custody, c17_callback_custody and c17_props_custody (a succeeding callback strands nothing; a failing one strands exactly what the pending work held = the recorded findings); c17_ids_distinct_reachable (Proofs/ItsIds.v); whole histories (Proofs/ItsCustodyRun.v): c17_history_custody and c17_completed_history_keeps_nothing (run to completion without a failing callback => the service holds what it held before).'),
  'C18': dict(section='8/C18', technique=ITS_TECH, note=ITS_NOTE + ' Genuine defects F-C18-1 and F-C18-2 repaired by fix: commits.',
    text='Theorems c18_inbound_two_step, c18_executed_not_approved, c18_token_never_replaced, c18_no_reissue, c18_zero_supply_no_minter, c18_service_minter_refused, c18_mintership_leaves_service, c18_handover_keeps_minter_bit, c18_no_minter_no_mint. Every operation / history (Proofs/TMToken.v, Proofs/ItsTokens.v): c18_endpoints_keep_token, c18_token_forever_step, c18_token_forever (the recorded token survives all 25 operation kinds; hypothesis: deployment addresses are fresh).'),
  'C19': dict(section='8/C19', technique=ITS_TECH, note=ITS_NOTE,
